@@ -419,11 +419,12 @@ def run(ctx: Ctx) -> None:
     for ci in classes:
         ctx.ok("C08-scope", ci.where, "class defines or inherits comparison/hash dunders from an in-repo class")
     names = {c.name for c in classes}
-    rule_r1(ctx, classes)
-    hashinfo = rule_r2_r3(ctx, classes)
-    groups = rule_r4(ctx, classes, hashinfo)
-    rule_r5_r6(ctx, classes, groups)
-    rule_r7(ctx, classes)
+    ctx.run(rule_r1, ctx, classes)
+    hashinfo = ctx.run(rule_r2_r3, ctx, classes)
+    groups = ctx.run(rule_r4, ctx, classes, hashinfo or {})
+    if groups is not None:
+        ctx.run(rule_r5_r6, ctx, classes, groups)
+    ctx.run(rule_r7, ctx, classes)
     ctx.assume("fields compared by __eq__ hold values whose own ==/hash are coherent (Perm = tuple, frozenset): checked recursively for in-repo classes, trusted for builtins")
     _ = names
 
@@ -810,3 +811,46 @@ def immut_class(repo: Repo, fi: FuncInfo, val: ast.AST) -> str:
             if base in ("list", "List", "set", "Set", "dict", "Dict"):
                 return "mutable"
     return "unknown"
+
+
+# ------------------------------------------------------------------ thorough tier
+
+
+def variants():
+    from ..selftest import V, insert_stmt, reformat_only, remove_def, rename_local, replace_expr, replace_stmt
+
+    MP, BV, BA, PE = "permuta/patterns/meshpatt.py", "permuta/patterns/bivincularpatt.py", "permuta/perm_sets/basis.py", "permuta/patterns/perm.py"
+    return [
+        # ---- must fire
+        V("biv-hash-super-proxy", replace_expr(BV, "BivincularPatt.__hash__", "super().__hash__()", "hash(super())"), "fire", "C08-R2", "the original defect"),
+        V("mesh-hash-id", replace_expr(MP, "MeshPatt.__hash__", "hash((self.pattern, self.shading))", "hash((self.pattern, id(self)))"), "fire", "C08-R2"),
+        V("mesh-hash-bound-method", replace_expr(MP, "MeshPatt.__hash__", "hash((self.pattern, self.shading))", "hash((self.pattern, self.rank))"), "fire", "C08-R2"),
+        V("biv-drop-hash", remove_def(BV, "BivincularPatt.__hash__"), "fire", "C08-R1"),
+        V("mesh-eq-ignores-shading", replace_expr(MP, "MeshPatt.__eq__", "self.shading == other.shading and self.pattern == other.pattern", "self.pattern == other.pattern"), "fire", "C08-R3"),
+        V("mesh-eq-self-self", replace_expr(MP, "MeshPatt.__eq__", "self.shading == other.shading", "self.shading == self.shading"), "fire", "C08-R3"),
+        V("biv-own-hash", replace_expr(BV, "BivincularPatt.__hash__", "super().__hash__()", "hash((self.pattern, tuple(sorted(self.shading))))"), "fire", "C08-R4"),
+        V("mesh-hash-class", replace_expr(MP, "MeshPatt.__hash__", "hash((self.pattern, self.shading))", "hash((self.__class__, self.pattern, self.shading))"), "fire", "C08-R4"),
+        V("mesh-lt-dynamic-guard", replace_expr(MP, "MeshPatt.__lt__", "isinstance(other, MeshPatt)", "isinstance(other, self.__class__)"), "fire", "C08-R5", "the original defect"),
+        V("mesh-ge-guard-biv", replace_expr(MP, "MeshPatt.__ge__", "isinstance(other, MeshPatt)", "isinstance(other, type(self))"), "fire", "C08-R5"),
+        V("mesh-lt-raw-frozenset", replace_expr(MP, "MeshPatt.__lt__", "(self.pattern, sorted(self.shading))", "(self.pattern, self.shading)"), "fire", "C08-R6"),
+        V("mesh-le-strict", replace_stmt(MP, "MeshPatt.__le__", "return (self.pattern, sorted(self.shading)) <= (other.pattern, sorted(other.shading))",
+                                       "return (self.pattern, sorted(self.shading)) < (other.pattern, sorted(other.shading))"), "fire", "C08-R6"),
+        V("perm-lt-no-length", [replace_expr(PE, "Perm.__lt__", "(len(self), tuple(self))", "tuple(self)"), replace_expr(PE, "Perm.__lt__", "(len(other), tuple(other))", "tuple(other)"),
+                                replace_expr(PE, "Perm.__le__", "(len(self), tuple(self))", "tuple(self)"), replace_expr(PE, "Perm.__le__", "(len(other), tuple(other))", "tuple(other)")], "fire", "C08-R6"),
+        V("mesh-gt-reflects-le", replace_expr(MP, "MeshPatt.__gt__", "other.__lt__(self)", "other.__le__(self)"), "fire", "C08-R6"),
+        V("mesh-order-drops-shading", [replace_expr(MP, "MeshPatt.__lt__", "(self.pattern, sorted(self.shading)) < (other.pattern, sorted(other.shading))", "(self.pattern,) < (other.pattern,)"),
+                                       replace_expr(MP, "MeshPatt.__le__", "(self.pattern, sorted(self.shading)) <= (other.pattern, sorted(other.shading))", "(self.pattern,) <= (other.pattern,)")], "fire", "C08-R6"),
+        V("mesh-shade-in-place", replace_stmt(MP, "MeshPatt.shade", "return MeshPatt(self.pattern, self.shading | set(positions))", "self.shading = self.shading | set(positions)\nreturn self"), "fire", "C08-R7"),
+        V("mesh-init-mutable-shading", replace_stmt(MP, "MeshPatt.__init__", "self.shading = shading if isinstance(shading, frozenset) else frozenset(shading)", "self.shading = set(shading)"), "fire", "C08-R7"),
+        V("basis-eq-no-hash", remove_def(BA, "Basis.__hash__"), "fire", "C08-R1"),
+        V("basis-hash-id", replace_expr(BA, "MeshBasis.__hash__", "tuple.__hash__(self)", "id(self)"), "fire", "C08-R2"),
+        # ---- must stay silent
+        V("reformat-meshpatt", reformat_only(MP), "silent"),
+        V("mesh-hash-subset", replace_expr(MP, "MeshPatt.__hash__", "hash((self.pattern, self.shading))", "hash(self.pattern)"), "silent", note="hashing fewer fields than compared is coherent"),
+        V("mesh-hash-xor", replace_expr(MP, "MeshPatt.__hash__", "hash((self.pattern, self.shading))", "hash(self.pattern) ^ hash(self.shading)"), "silent"),
+        V("mesh-eq-swapped-sides", replace_expr(MP, "MeshPatt.__eq__", "self.shading == other.shading", "other.shading == self.shading"), "silent"),
+        V("biv-hash-explicit-base", replace_expr(BV, "BivincularPatt.__hash__", "super().__hash__()", "MeshPatt.__hash__(self)"), "silent"),
+        V("mesh-gt-direct", replace_stmt(MP, "MeshPatt.__gt__", "return other.__lt__(self)", "return (self.pattern, sorted(self.shading)) > (other.pattern, sorted(other.shading))"), "silent"),
+        V("rename-other", rename_local(MP, "MeshPatt.__lt__", "other", "rhs"), "silent"),
+        V("mesh-eq-guard-meshpatt", replace_expr(MP, "MeshPatt.__eq__", "isinstance(other, self.__class__)", "isinstance(other, MeshPatt)"), "silent"),
+    ]
